@@ -148,8 +148,8 @@ def plan(tier, seed):
             sh.append({"kind": "explore", "pairs": pairs[i::n], "gran": "instr", "tier": tier, "_name": f"explore-instr-{i}"})
     for i in range(2 if tier == "quick" else 6):
         sh.append({"kind": "stress", "part": i, "tier": tier, "inject": tier == "thorough" and i % 2 == 1, "_name": f"stress-{i}"})
-    types = [("valid", "burst"), ("generate", "burst"), ("twin", "burst"), ("valid", "valid"), ("generate", "valid"), ("valid", "generate"), ("generate", "generate"), ("twin", "valid"), ("valid", "twin")]
-    nf = 9
+    types = [("valid", "burst"), ("generate", "burst"), ("twin", "burst"), ("valid", "valid"), ("generate", "valid"), ("valid", "generate"), ("generate", "generate"), ("twin", "valid"), ("valid", "twin"), ("valid", "typo"), ("typo", "valid")]
+    nf = 11
     for i in range(nf):
         sh.append({"kind": "fresh", "type_pairs": types[i::nf], "tier": tier, "_name": f"fresh-explore-{i}"})
     sh.append({"kind": "solo", "tier": tier, "_name": "solo"})
@@ -462,17 +462,27 @@ def run_fresh_explore(shard, mon, S, p):
     rng = env.rng("C14", shard["_name"])
     gen_cs = [c for c in ("BE", "DE", "PT", "NL", "SI", "FR") if c in table]
 
+    last_valid = [None]
+
     def make(kind):
         """(thunk, checker) for one fresh input."""
         if kind == "valid":
             cc = rng.choice(cs)
             t = R_.make_iban(cc, G_.random_bban(table[cc], rng))
+            last_valid[0] = t
             return (lambda: calls.execute(S, {"fn": "iban", "text": t, "kw": {}})), (lambda out: out[0] == "ok" and out[1]["str"] == t), t
         if kind == "twin":
             cc = rng.choice(cs)
             t = R_.make_iban(cc, G_.random_bban(table[cc], rng))
             d = int(t[2:4])
             t = t[:2] + f"{rng.choice([x for x in range(100) if x != d]):02d}" + t[4:]
+            return (lambda: calls.execute(S, {"fn": "iban_is_valid", "text": t})), (lambda out: out == ["ok", False]), t
+        if kind == "typo":
+            # a typing error inside the BBAN of the valid IBAN made last (the partner of this schedule)
+            v = last_valid[0] or R_.make_iban("DE", G_.random_bban(table["DE"], rng))
+            pos_ = rng.randrange(4, len(v))
+            pool_ = R_.DIGITS if v[pos_] in R_.DIGITS else R_.UPPER
+            t = v[:pos_] + rng.choice([c_ for c_ in pool_ if c_ != v[pos_]]) + v[pos_ + 1 :]
             return (lambda: calls.execute(S, {"fn": "iban_is_valid", "text": t})), (lambda out: out == ["ok", False]), t
         if kind == "burst":
             texts = []
@@ -509,11 +519,21 @@ def run_fresh_explore(shard, mon, S, p):
                     for k in range(1, n_first + 1):
                         for _f in range(rng.randrange(3)):
                             make("valid")[0]()  # filler: moves cache fill levels between schedules
-                        ta, ca, ia = make(ka)
-                        tb, cb, ib = make(kb)
+                        if ka == "typo":
+                            tb, cb, ib = make(kb)  # the valid one first: the typo is derived from it
+                            ta, ca, ia = make(ka)
+                        else:
+                            ta, ca, ia = make(ka)
+                            tb, cb, ib = make(kb)
                         r = sched.run([ta, tb], first=first, preempt={(first, k)})
                         mon.ev()
                         mon.tally("schedules_fresh_inputs")
+                        if "typo" in (ka, kb):
+                            # the very next validation of the mistyped text, alone: still an error
+                            again = (ta if ka == "typo" else tb)()
+                            if again != ["ok", False]:
+                                mon.viol("concurrent_outcome_differs_from_reference:fresh_inputs:typo_presented_again_after_the_schedule", {"input": ia if ka == "typo" else ib, "valid_partner": ib if ka == "typo" else ia, "schedule": {"first": first, "preempt": [[first, k]]}},
+                                         ["ok", False], json.dumps(again, default=str)[:300])
                         mon.distinct(("fresh-explore", shard["_name"], ka, kb, first, k, _))
                         if r["hung"]:
                             mon.inconclusive.append("fresh-input schedule hung")
